@@ -184,7 +184,14 @@ static std::string run(const Sx& c) {
           o << "("; for (int a = 0; a < nvar; a++) { o << "("; for (int b = 0; b < nvar; b++) o << (b ? " " : "") << sx_d(model->eval(p1, p2, a, b, &mVAR)); o << ")"; } o << ")";
         }
       }
-      o << ") " << sx_vd(alone[kt]) << ")"; kt++;
+      o << ") " << sx_vd(alone[kt]) << " (";
+      // the two sets of discretisation points themselves (block kriging): checked against the regular discretisation of the cell
+      if (calcul == EKrigOpt::BLOCK) {
+        int nd = ksys._getNDisc();
+        o << "("; for (int i = 0; i < nd; i++) o << sx_vd(ksys._getDISC1Vec(i)); o << ") (";
+        for (int i = 0; i < nd; i++) o << sx_vd(ksys._getDISC2Vec(i)); o << ")";
+      }
+      o << "))"; kt++;
     }
     ksys.conclusion();
   }
